@@ -303,8 +303,21 @@ def rule_r3(rep, repo):
                     for n in ast.walk(f.node))
     ret = next((s for s in ast.walk(f.node) if isinstance(s, ast.Return)), None)
     a = norm(ret.value) if ret is not None and isinstance(ret.value, ast.Name) else "alpha"
-    upper = any(t == f"{a}[{a} > {cut_param}] = {cut_param}" for t in txt)
-    lower = any(t == f"{a}[{a} < -{cut_param}] = -{cut_param}" for t in txt)
+    # the mask may be written in place or named first (`too_large = alpha > cutoff; alpha[too_large] = cutoff`)
+    single = {}
+    for n_ in ast.walk(f.node):
+        if isinstance(n_, ast.Assign) and len(n_.targets) == 1 and isinstance(n_.targets[0], ast.Name):
+            single.setdefault(n_.targets[0].id, []).append(n_.value)
+    resolved = []
+    for st in stores:
+        tgt = st.targets[0]
+        mask = tgt.slice
+        if isinstance(mask, ast.Name) and len(single.get(mask.id, [])) == 1:
+            mask = single[mask.id][0]
+        resolved.append(f"{norm(tgt.value)}[{norm(mask)}] = {norm(st.value)}")
+    txt = txt + resolved
+    upper = any(t in (f"{a}[{a} > {cut_param}] = {cut_param}", f"{a}[{cut_param} < {a}] = {cut_param}") for t in txt)
+    lower = any(t in (f"{a}[{a} < -{cut_param}] = -{cut_param}", f"{a}[-{cut_param} > {a}] = -{cut_param}") for t in txt)
     if clip_call:
         c = next(n for n in ast.walk(f.node) if isinstance(n, ast.Call) and (norm(n.func) == "np.clip" or
                  (isinstance(n.func, ast.Attribute) and n.func.attr == "clip")))
